@@ -1,0 +1,166 @@
+//! Verification hooks (feature `verif`). Nothing in here is compiled into a normal build.
+//!
+//! * `PermMap` is a drop-in for the local `HashMap`s of the optimiser whose iteration order is
+//!   decided by a thread-local *choice script*, so that a model checker can enumerate every
+//!   iteration order a real `HashMap` could produce. With no script installed iteration is in
+//!   insertion order, i.e. a hooked build is deterministic.
+//! * `solve3` exposes the solver's three valued result.
+
+use std::borrow::Borrow;
+use std::cell::RefCell;
+use std::collections::HashMap;
+
+use crate::document::Document;
+use crate::parser::Expression;
+use crate::solver::SolverResult;
+
+#[derive(Default)]
+struct Script {
+    choices: Vec<u32>,
+    pos: usize,
+    trace: Vec<(u32, u32)>,
+}
+
+thread_local! {
+    static SCRIPT: RefCell<Script> = RefCell::new(Script::default());
+}
+
+/// Installs the choices to replay on this thread and clears the trace.
+pub fn set_script(choices: Vec<u32>) {
+    SCRIPT.with(|s| {
+        let mut s = s.borrow_mut();
+        s.choices = choices;
+        s.pos = 0;
+        s.trace.clear();
+    });
+}
+
+/// Returns the `(arity, chosen)` pairs of every choice point met since `set_script`, and resets.
+pub fn take_trace() -> Vec<(u32, u32)> {
+    SCRIPT.with(|s| {
+        let mut s = s.borrow_mut();
+        s.choices.clear();
+        s.pos = 0;
+        std::mem::take(&mut s.trace)
+    })
+}
+
+/// A choice point: replays the script, then answers 0.
+pub fn choose(arity: u32) -> u32 {
+    if arity <= 1 {
+        return 0;
+    }
+    SCRIPT.with(|s| {
+        let mut s = s.borrow_mut();
+        let c = if s.pos < s.choices.len() {
+            let c = s.choices[s.pos];
+            assert!(c < arity, "verif: choice script diverged ({} >= {})", c, arity);
+            c
+        } else {
+            0
+        };
+        s.pos += 1;
+        s.trace.push((arity, c));
+        c
+    })
+}
+
+/// An insertion ordered map offering the subset of the `HashMap` API the optimiser uses.
+pub struct PermMap<K, V> {
+    items: Vec<(K, V)>,
+}
+
+pub struct Entry<'a, K, V> {
+    map: &'a mut PermMap<K, V>,
+    key: K,
+}
+
+impl<'a, K: PartialEq, V> Entry<'a, K, V> {
+    pub fn or_insert(self, default: V) -> &'a mut V {
+        let i = match self.map.items.iter().position(|(k, _)| *k == self.key) {
+            Some(i) => i,
+            None => {
+                self.map.items.push((self.key, default));
+                self.map.items.len() - 1
+            }
+        };
+        &mut self.map.items[i].1
+    }
+}
+
+#[allow(clippy::new_without_default)]
+impl<K: PartialEq, V> PermMap<K, V> {
+    pub fn new() -> Self {
+        Self { items: vec![] }
+    }
+
+    pub fn entry(&mut self, key: K) -> Entry<'_, K, V> {
+        Entry { map: self, key }
+    }
+
+    pub fn contains_key<Q: ?Sized + PartialEq>(&self, key: &Q) -> bool
+    where
+        K: Borrow<Q>,
+    {
+        self.items.iter().any(|(k, _)| k.borrow() == key)
+    }
+
+    pub fn insert(&mut self, key: K, value: V) -> Option<V> {
+        match self.items.iter().position(|(k, _)| *k == key) {
+            Some(i) => Some(std::mem::replace(&mut self.items[i].1, value)),
+            None => {
+                self.items.push((key, value));
+                None
+            }
+        }
+    }
+
+    pub fn remove<Q: ?Sized + PartialEq>(&mut self, key: &Q) -> Option<V>
+    where
+        K: Borrow<Q>,
+    {
+        let i = self.items.iter().position(|(k, _)| k.borrow() == key)?;
+        Some(self.items.remove(i).1)
+    }
+
+    pub fn values(&self) -> impl Iterator<Item = &V> {
+        self.items.iter().map(|(_, v)| v)
+    }
+
+    pub fn len(&self) -> usize {
+        self.items.len()
+    }
+
+    pub fn is_empty(&self) -> bool {
+        self.items.is_empty()
+    }
+}
+
+impl<K, V> IntoIterator for PermMap<K, V> {
+    type Item = (K, V);
+    type IntoIter = std::vec::IntoIter<(K, V)>;
+
+    fn into_iter(self) -> Self::IntoIter {
+        // Lehmer coded permutation, one choice point per position.
+        let mut rest = self.items;
+        let mut out = Vec::with_capacity(rest.len());
+        while !rest.is_empty() {
+            let i = choose(rest.len() as u32) as usize;
+            out.push(rest.remove(i));
+        }
+        out.into_iter()
+    }
+}
+
+/// The solver's three valued result: 1 = true, 0 = false, -1 = missing.
+pub fn solve3(
+    expression: &Expression,
+    identifiers: &HashMap<String, Expression>,
+    document: &dyn Document,
+) -> i8 {
+    match crate::solver::solve_expression(expression, identifiers, document) {
+        SolverResult::True => 1,
+        SolverResult::False => 0,
+        SolverResult::Missing => -1,
+    }
+}
